@@ -28,7 +28,7 @@ ASSUMPTIONS = ["the layout product is configuration swarm; only the operation hi
 LEVEL_NOTE = ("mostly configuration/input space: the simulator contributes the seeded swarm and the operation-history "
               "clause (memoisation vs. data-location changes); trusted base: numpy, sim/grids.py MGrid")
 OPS = ["read_shape", "read_size", "read_points", "read_cells", "read_axes", "copy", "deepcopy", "set_loc",
-       "to_unstructured", "cast"]
+       "to_unstructured", "cast", "cast_mutate"]
 
 
 def generate(tape, tier="quick"):
@@ -174,6 +174,23 @@ def _execute(sc):
                     or len(u.cell_types) != len(u.cells) or int(u.cell_count) != len(u.cells) \
                     or not np.array_equal(u.cell_types, g.cell_types):
                 v("grid-unstructured", "cast", f"{tag}: unstructured cast does not preserve points/cells/data points")
+        elif k == "cast_mutate":
+            # whoever got an unstructured cast earlier may do with it what they like (here: switch its data location);
+            # a later cast of the untouched grid, or of a copy of it, still reflects the grid
+            held = g.to_unstructured()
+            other = Location.POINTS if m.loc == "cells" else Location.CELLS
+            try:
+                held.data_location = other
+            except ValueError:
+                pass
+            for src_g in (g, g.copy()):
+                u = src_g.to_unstructured()
+                size = int(np.prod(m.data_shape()))
+                if u.data_location != g.data_location or tuple(u.data_shape) != (size,) or \
+                        not np.allclose(u.data_points, g.data_points):
+                    v("grid-unstructured", "cast-after-mutation", f"{tag}: a cast taken after an earlier cast had been "
+                      f"relocated by its holder no longer reflects the grid (location {u.data_location} vs {g.data_location})")
+                    break
         elif k == "cast":
             if hasattr(g, "to_uniform"):
                 members.append([g.to_uniform(), MGrid(m.sp, loc=m.loc)])
